@@ -186,12 +186,17 @@ def main(run):
                 rng_restore(pre)
                 b.clock.fail_at_next = k
                 b.clock.fault_salt = t + seed
+                b.clock.interrupts = True        # KeyboardInterrupt / CancelledError / SystemExit raised by a callback are faults, too
                 raised = None
                 try:
                     call(b, x, y, kw)
                 except InjectedFault as ex:
                     raised = ex
                 except Exception as ex:
+                    raised = ex
+                except BaseException as ex:
+                    if not getattr(ex, "injected", False):
+                        raise                    # (a real interrupt or the harness' own time guard)
                     raised = ex
                 b.clock.fail_at = None
                 site = b.clock.log[-1][1] if b.clock.log and b.clock.log[-1][0] == "fault" else "?"
